@@ -6,7 +6,7 @@
 // ToPolygons() of the input and of the result.
 //
 // Guard band of the Offset clauses (samples inside it never decide):
-//   B = 4*E + 64*DBL_EPSILON*S + straightSlack
+//   B = 8*E + 64*DBL_EPSILON*S + straightSlack (+ 2|delta| when round-join chords are shorter than 1.5*E)
 //   S = maxAbs(input) + reach,  reach = Dmax for Miter joins, 2|delta| otherwise
 //   E = max(result.GetTolerance(), eps(S)), eps(L) = 1001*12.37*u*2^ceil(log2 L)
 //       (Offset regularises its raw rings with ApplyFillRule at InferEps(rings)
@@ -38,6 +38,15 @@ using g2::Seg;
 namespace {
 
 const ld PI = 3.14159265358979323846264338327950288L;
+
+static void tmark(const char* what) {
+  static const bool on = getenv("VERIF_TIMING") != nullptr;
+  if (!on) return;
+  static clock_t last = clock();
+  clock_t now = clock();
+  fprintf(stderr, "[t] %-28s %.3fs\n", what, (double)(now - last) / CLOCKS_PER_SEC);
+  last = now;
+}
 
 // ----------------------------------------------------------------- inputs
 SimplePolygon reversed(SimplePolygon r) {
@@ -292,7 +301,7 @@ struct OffsetEval {
   double tol = 0;
   ld B = 0, chord = 0, Dmax = 0;
   int segUsed = 0;
-  bool collapse = false;
+  bool collapse = false, arcChain = false;
 };
 
 struct InputInfo {
@@ -384,7 +393,15 @@ OffsetEval evalOffset(vh::Ctx& c, const CrossSection& cs, const InputInfo& in, c
   const double S = (double)std::max((ld)std::max(in.scale, g2::maxAbs(o.polys)), in.scale + reach);
   double E = g2::epsFromScale(S);
   if (std::isfinite(o.tol) && o.tol > E) E = o.tol;
-  o.B = 4 * (ld)E + 64 * (ld)DBL_EPSILON * S + 2 * ad * in.straightTurn1mCos;
+  o.B = 8 * (ld)E + 64 * (ld)DBL_EPSILON * S + 2 * ad * in.straightTurn1mCos;
+  // Round-join chords shorter than the regularisation eps chain-merge (the
+  // documented transitive vertex merge, cf. C11 "drift"): a whole arc may
+  // collapse onto one of its points, moving the boundary by up to the arc's
+  // span <= 2|delta|. Such requests cannot be resolved at this scale.
+  if (q.jt == JoinType::Round && 2 * ad * sinl(PI / seg) <= 1.5L * E) {
+    o.B += 2 * ad;
+    o.arcChain = true;
+  }
   o.collapse = edgeConsumed(in, q.delta);
   return o;
 }
@@ -525,6 +542,7 @@ bool checkOffset(vh::Ctx& c, const InputInfo& in, const OffsetParams& q, const O
   const ld ad = fabsl((ld)q.delta), B = o.B, ch = o.chord;
   const bool round = q.jt == JoinType::Round;
   c.count(o.collapse ? "offsets_in_collapse_regime" : "offsets_outside_collapse_regime");
+  if (o.arcChain) c.count("offsets_with_sub_eps_arc_chords");
   // bound the oracle's work: at most ~6e6 point-edge evaluations per offset
   const size_t budget = std::max<size_t>(120, (size_t)(6e6 / (double)(in.segs.size() + o.segs.size() + 1)));
   const size_t stride = pts.size() > budget ? (pts.size() + budget - 1) / budget : 1;
@@ -672,7 +690,9 @@ void caseOffset(vh::Ctx& c) {
   CrossSection cs;
   InputInfo in;
   std::string how;
+  tmark("case start");
   if (!makeInput(c, cs, in, how, true)) return;
+  tmark("makeInput");
   double x0, y0, x1, y1;
   g2::bbox(in.segs, x0, y0, x1, y1);
   const double size = std::max(x1 - x0, y1 - y0);
@@ -695,11 +715,14 @@ void caseOffset(vh::Ctx& c) {
   how += pbuf;
   if (getenv("VERIF_TRACE")) fprintf(stderr, "%s\n  input %s\n", how.c_str(), g2::polyJson(in.polys, 100).c_str());
   OffsetEval o = evalOffset(c, cs, in, q);
+  tmark("evalOffset");
   c.count(std::string("offset_") + jtName(q.jt) + (q.delta >= 0 ? "_pos" : "_neg"));
   c.maxi("max_offset_result_verts", (long long)g2::numVerts(o.polys));
   std::vector<vec2> pts = offsetSamples(c, in, o, q);
+  tmark("offsetSamples");
   long decided = 0;
   if (!checkOffset(c, in, q, o, pts, how, decided)) return;
+  tmark("checkOffset");
   // monotone in delta: a second offset with the same join parameters
   if (g.chance(0.6)) {
     OffsetParams q2 = q;
@@ -716,7 +739,9 @@ void caseOffset(vh::Ctx& c) {
       decided += d2;
       pts2.insert(pts2.end(), pts.begin(), pts.end());
       const bool firstSmaller = q.delta < q2.delta;
+      tmark("second offset + check");
       if (!checkMonotone(c, in, firstSmaller ? q : q2, firstSmaller ? o : o2, firstSmaller ? q2 : q, firstSmaller ? o2 : o, pts2, how)) return;
+      tmark("checkMonotone");
     }
   }
   if (decided >= 10) {
@@ -903,10 +928,17 @@ void caseHull(vh::Ctx& c) {
     const vec2 u = h[(i + n - 1) % n], v = h[i], w = h[(i + 1) % n];
     if (g2::orient(u, v, w) < 0 && g2::distLine(v, u, w) > B) return fail("reflex-vertex", g2::ptJson(v));
     const ld e1x = (ld)v.x - u.x, e1y = (ld)v.y - u.y, e2x = (ld)w.x - v.x, e2y = (ld)w.y - v.y;
-    turn += atan2l(e1x * e2y - e1y * e2x, e1x * e2x + e1y * e2y);
+    const ld dt = e1x * e2x + e1y * e2y;
+    const ld mag = atan2l(fabsl(e1x * e2y - e1y * e2x), dt);
+    // sign from the exact predicate; a within-band reflex reversal counts as a left turn
+    turn += (g2::orient(u, v, w) >= 0 || dt < 0) ? mag : -mag;
   }
-  if (fabsl(turn - 2 * PI) > 0.5) return fail("boundary-does-not-wind-exactly-once", std::to_string((double)turn));
-  if (g2::ringArea(h) <= 0) return fail("not-counter-clockwise", "");
+  if (fat) {
+    // (for point sets within the band of a line the result is a sliver whose orientation is below the resolution)
+    if (fabsl(turn - 2 * PI) > 0.5) return fail("boundary-does-not-wind-exactly-once", std::to_string((double)turn));
+    if (g2::ringArea(h) <= 0) return fail("not-counter-clockwise", "");
+  } else
+    c.count("hull_nonempty_results_for_degenerate_input");
   // (c) contains every input point (inside, on, or within the band)
   const std::vector<Seg> hs = g2::segsOf(R);
   long exactIn = 0, inBand = 0;
